@@ -1,10 +1,20 @@
 #!/bin/bash
 set -u
 cd "$(dirname "$0")/../.."
+export GOFLAGS=-mod=mod GOPROXY=off GOSUMDB=off GOTOOLCHAIN=local
 w="${VERIF_WORK:-$PWD/.work/c16.$$}"; mkdir -p "$w"
 if ! lib/instr_build.sh harness/c16 "$w/bin" 2> "$w/build.log"; then
   cat "$w/build.log" >&2; echo "TOOL-ERROR: instrumented build failed" >&2; exit 2
 fi
+# separate free-running race pass: un-instrumented build with the race detector
+# (checkptr off: the repository's SIMD wrappers pass lengths as unsafe.Pointer)
+if ! go build -race -gcflags=all=-d=checkptr=0 -tags verif -o "$w/bin-race" ./harness/c16 2> "$w/build2.log"; then
+  cat "$w/build2.log" >&2; echo "TOOL-ERROR: race build failed" >&2; exit 2
+fi
+# borrowed phase: C20's directed membership histories on real servers
+if ! INSTR_REUSE=1 lib/instr_build.sh harness/c20 "$w/bin-c20" 2> "$w/build3.log"; then
+  cat "$w/build3.log" >&2; echo "TOOL-ERROR: instrumented build failed" >&2; exit 2
+fi
 [ "${1:-}" = "--warm" ] && exit 0
 { flock -u 9 && exec 9>&-; } 2>/dev/null  # the build is done: release the shared lock on /repo's working tree (.work/repo.lock)
-exec "$w/bin" "$@"
+VERIF_C16_RACE="$w/bin-race" VERIF_BIN_C20="$w/bin-c20" exec "$w/bin" "$@"
